@@ -867,6 +867,8 @@ impl Log {
 			total_ref_count += overlay.map.len();
 			overlays.ref_count[id.log_index()].map.extend(overlay.map.into_iter());
 		}
+		#[cfg(pdb_verif)]
+		crate::verif::event("publish", record_id, 0);
 
 		log::debug!(
 			target: "parity-db",
@@ -913,6 +915,8 @@ impl Log {
 				}
 			}
 		}
+		#[cfg(pdb_verif)]
+		crate::verif::event("endread", record_id, 0);
 		// Reclaim overlay memory
 		for (i, o) in overlays.index.iter_mut().enumerate() {
 			if o.map.capacity() > o.map.len() * INDEX_OVERLAY_RECLAIM_FACTOR {
@@ -962,6 +966,10 @@ impl Log {
 					try_io!(file.sync_data());
 					log::debug!(target: "parity-db", "Flush: Flushing log completed");
 				}
+				// (verif) reported before the hand-over: `appending` is already taken and its guard is
+				// still held; after the push the commit worker could enact the file before the event.
+				#[cfg(pdb_verif)]
+				crate::verif::event("flush", 0, 0);
 				self.read_queue.write().push_back((to_flush.id, file));
 			}
 			return Ok(true)
